@@ -24,7 +24,7 @@ NB = st.lists(st.lists(st.integers(0, 7), min_size=0, max_size=4, unique=True), 
 
 
 def strategy(tier):
-    return st.tuples(gen.tiered(tier, max_ops=12, kinds=KINDS, removal=(False,), horizon=8), NB).map(lambda x: dict(x[0], nb=x[1]))
+    return st.tuples(gen.tiered(tier, max_ops=12, kinds=KINDS, removal=(False,), horizon=8, shifts=True), NB).map(lambda x: dict(x[0], nb=x[1]))
 
 
 def run_case(case, rec):
